@@ -103,13 +103,15 @@ func (p *RpcPackageHandler) Read(ss getty.Session, data []byte) (interface{}, in
 	header.CodecType = bytes.ReadByte(in)
 	header.CompressType = bytes.ReadByte(in)
 	header.RequestID = bytes.ReadUInt32(in)
-	headMapLength := header.HeadLength - Seatav1HeaderLength
-	header.Meta = decodeHeapMap(in, headMapLength)
-	header.BodyLength = header.TotalLength - uint32(header.HeadLength)
-
+	if header.HeadLength < Seatav1HeaderLength || header.TotalLength < uint32(header.HeadLength) {
+		return nil, 0, ErrInvalidPackage
+	}
 	if uint32(len(data)) < header.TotalLength {
 		return nil, int(header.TotalLength), nil
 	}
+	headMapLength := header.HeadLength - Seatav1HeaderLength
+	header.Meta = decodeHeapMap(in, headMapLength)
+	header.BodyLength = header.TotalLength - uint32(header.HeadLength)
 
 	// r := byteio.BigEndianReader{Reader: bytes.NewReader(data)}
 	rpcMessage := message.RpcMessage{
